@@ -67,6 +67,7 @@ static pthread_t thr[MAXTH];
 static int thr_started[MAXTH], thr_joined[MAXTH];
 static int schedbuf[1024], nsched, sched_det, sticky = -1, jump;
 static int sigsim, pids[16], npids, chldthr;
+static int keeptasks;		/* task objects are initialised once and re-registered as they are */
 
 /* ---------------------------------------------------------------- helpers */
 static int kind_of(const char *s)
@@ -227,7 +228,8 @@ static void cb_common(void *cookie, int kind, int band, int hid)
 	if (kind == c->kind && (kind == K_TM || kind == K_TK)) {
 		/* one-shot: already unregistered on entry, may be freed here */
 		o->reg = 0;
-		quarantine(kind, c->id);
+		if (!(kind == K_TK && keeptasks))
+			quarantine(kind, c->id);
 	}
 	if (kind == K_WI && band == 2) {
 		/* completion: the item is the caller's again */
@@ -441,20 +443,24 @@ static void do_op(struct op *p)
 	} else if (!strcmp(n, "tk_reg")) {
 		OBJ(K_TK);
 		if (o->reg) { skip(n, id); goto out; }
+		int had = keeptasks && o->mem != NULL;
 		struct iv_task *t = fresh(K_TK, id);
-		IV_TASK_INIT(t);
-		t->cookie = cookie_of(K_TK, id);
-		t->handler = ohtab[K_TK][id];
+		if (!had) {
+			IV_TASK_INIT(t);
+			t->cookie = cookie_of(K_TK, id);
+			t->handler = ohtab[K_TK][id];
+		}
 		iv_task_register(t);
 		o->reg = 1;
 		alog(n, id, id, 0, 0, 0, 0);
-	} else if (!strcmp(n, "tk_unreg")) {
+	} else if (!strcmp(n, "tk_unreg") || !strcmp(n, "tk_unreg_keep")) {
 		OBJ(K_TK);
 		if (!o->reg || o->mem == NULL) { skip(n, id); goto out; }
 		iv_task_unregister(o->mem);
 		o->reg = 0;
-		alog(n, id, 0, 0, 0, 0, 0);
-		quarantine(K_TK, id);
+		alog("tk_unreg", id, 0, 0, 0, 0, 0);
+		if (!(keeptasks && !strcmp(n, "tk_unreg_keep")))
+			quarantine(K_TK, id);
 	} else if (!strcmp(n, "ev_reg")) {
 		OBJ(K_EV);
 		if (o->reg) { skip(n, id); goto out; }
@@ -924,6 +930,7 @@ static void reset_script(void)
 	jump = 0;
 	maxcb = 120;
 	sigsim = 0;
+	keeptasks = 0;
 	npids = 0;
 	chldthr = 0;
 	memset(thr_started, 0, sizeof thr_started);
@@ -980,6 +987,7 @@ int main(int argc, char **argv)
 				else if (!strncmp(tok[i], "det=", 4)) sched_det = atoi(tok[i] + 4);
 				else if (!strncmp(tok[i], "jump=", 5)) jump = atoi(tok[i] + 5);
 				else if (!strncmp(tok[i], "sigsim=", 7)) sigsim = atoi(tok[i] + 7);
+				else if (!strncmp(tok[i], "keeptasks=", 10)) keeptasks = atoi(tok[i] + 10);
 				else if (!strncmp(tok[i], "chldthr=", 8)) chldthr = atoi(tok[i] + 8);
 				else if (!strncmp(tok[i], "pids=", 5)) {
 					npids = 0;
